@@ -18,7 +18,7 @@ use std::time::{Duration, Instant};
 use log::{debug, trace, warn};
 use wincode::{SchemaRead, SchemaWrite};
 
-use crate::consensus::{DELTA, SharedBlockstore, SharedPool, ValidatorEpochInfo};
+use crate::consensus::{AddShredError, DELTA, SharedBlockstore, SharedPool, ValidatorEpochInfo};
 use crate::crypto::merkle::{DoubleMerkleProof, DoubleMerkleTree, SliceRoot};
 use crate::crypto::{Hash, hash};
 use crate::disseminator::rotor::{SamplingStrategy, StakeWeightedSampler};
@@ -454,13 +454,17 @@ where
                 };
 
                 // store shred
-                self.outstanding_requests.remove(&request_hash);
                 let res = self
                     .blockstore
                     .write()
                     .await
                     .add_shred_from_repair(block_hash.clone(), validated)
                     .await;
+                if matches!(res, Err(AddShredError::TypeMismatch)) {
+                    warn!("repair response (Shred) with data/coding type not matching its index");
+                    return;
+                }
+                self.outstanding_requests.remove(&request_hash);
                 if let Ok(Some(block_info)) = res {
                     assert_eq!(block_info.hash, *block_hash);
                     self.pool
